@@ -251,7 +251,7 @@ def PROOFS():
     return [("vf.contracts.config_c", config_c.FUNCTIONS),
             # the dispatcher of call terms (C(f), T(f, ref), ...): the call is evaluated on the new frame, a CategoricalBox is unwrapped,
             # and the value always goes through the policy
-            ("vf.contracts.call_newdata_c", call_newdata_c.FUNCTIONS), ("vf.contracts.variable_c", [f for f in variable_c.FUNCTIONS if f.endswith("eval_new_data_categoric")] +
+            ("vf.contracts.call_newdata_c", [f for f in call_newdata_c.FUNCTIONS if ".Call." in f]), ("vf.contracts.variable_c", [f for f in variable_c.FUNCTIONS if f.endswith("eval_new_data_categoric")] +
              ["formulae.terms.variable.Variable.eval_new_data"]),        # the dispatcher: a categorical variable always goes through the policy
             ("vf.contracts.terms_c", ["formulae.terms.terms.GroupSpecificTerm.eval_new_data"]),
             ("vf.contracts.matrices_c", ["formulae.matrices.GroupEffectsMatrix.evaluate_new_data", "formulae.matrices.CommonEffectsMatrix.evaluate_new_data"]),
